@@ -193,6 +193,20 @@ def run(rep: vlib.Reporter, tier: str, seed: int) -> None:
         found = True
     n_runs += mp_info["runs"]
     dist["multiprocessing_family"] = {**mp_info, "candidates": len(mp_cand), "with_multi_step_object": sum(1 for r in mp_cand if mp_rank(r) < 10)}
+    # a consumer that is SLOW between two items of a MULTIPROCESSING stream (compute_stream is suspended meanwhile, the worker
+    # processes get no command): the stream must still deliver the remaining items, equal the batch result and leave nothing
+    # behind; the observed history is replayed as a trace of Model/Worker.v (an idle worker never gives up: Worker_death_causes)
+    from harness import worker_proto
+    prw = vlib.build_props("Worker")
+    rep.proof(prw)
+    slow_probs: List[str] = []
+    for pause in ((11.0, 31.0) if tier == "thorough" else (11.0,)):
+        slow_probs += [f"consumer pausing {pause:g} s after the first item: {p_}" for p_ in worker_proto.slow_consumer_case(pause, "C13")]
+    for p_ in slow_probs:
+        rep.finding(f"slow-consumer:{p_[:120]}", "MULTIPROCESSING stream with a slow consumer: " + p_, {"kind": "slow-consumer", "problem": p_})
+        found = True
+    n_runs += 2 if tier == "thorough" else 1
+    dist["slow_consumer_cases"] = 2 if tier == "thorough" else 1
     for i in bad[:5]:
         r = recs[i]
         if r["sync_stream"]["status"] == "raised" and not r["sync_stream"]["raised"]:
@@ -216,6 +230,11 @@ def run(rep: vlib.Reporter, tier: str, seed: int) -> None:
 def replay(path: str) -> int:
     r = json.load(open(path))["replay"]
     install()
+    if r.get("kind") == "slow-consumer":
+        from harness import worker_proto
+        vlib.build_props("Worker")
+        print(worker_proto.slow_consumer_case(11.0, "C13"))
+        return 0
     if r.get("kind") == "e2e-mp":
         from harness import c13_mp
         print(json.dumps(c13_mp.one(r["spec"]), indent=1, default=str))
